@@ -51,6 +51,7 @@ def base_unordered(node):
 class Scan(ast.NodeVisitor):
     def __init__(self, path):
         self.path, self.stack, self.iter_sites, self.mut_sites = path, [], [], []
+        self.hidden_sites = []
         self.stmt_calls = set()
         self.locals = [set()]
     def fn(self):
@@ -92,6 +93,12 @@ class Scan(ast.NodeVisitor):
         self.generic_visit(node)
     def visit_Call(self, node):
         name = node.func.id if isinstance(node.func, ast.Name) else (node.func.attr if isinstance(node.func, ast.Attribute) else None)
+        # ---- C16, second sentence: reads of hidden process state (random streams, wall clock, os entropy) ----
+        fsrc = src(node.func)
+        if (fsrc.startswith(('random.', 'numpy.random.', 'np.random.', 'secrets.')) or fsrc in ('time.time', 'time.time_ns', 'time.monotonic', 'time.perf_counter',
+                'datetime.now', 'datetime.utcnow', 'datetime.datetime.now', 'datetime.datetime.utcnow', 'os.urandom', 'datetime.today', 'date.today')
+                or (isinstance(node.func, ast.Name) and node.func.id in ('shuffle', 'choice', 'choices', 'randint', 'uniform', 'sample', 'randrange', 'gauss'))):
+            self.hidden_sites.append((self.path, self.fn(), fsrc))
         if name == 'sorted' and node.args:
             if unordered(node.args[0]):
                 key = next((src(k.value) for k in node.keywords if k.arg == 'key'), 'identity')
@@ -160,6 +167,7 @@ class Scan(ast.NodeVisitor):
 
 def scan(repo):
     iters, muts, frozen = [], [], []
+    hidden = []
     files = []
     for r in ROOTS:
         p = os.path.join(repo, r)
@@ -175,7 +183,7 @@ def scan(repo):
             continue
         tree = ast.parse(open(f).read())
         s = Scan(rel); s.visit(tree)
-        iters += s.iter_sites; muts += s.mut_sites
+        iters += s.iter_sites; muts += s.mut_sites; hidden += s.hidden_sites
         # C16 frozen-type facts: dataclasses and NamedTuples
         for n in ast.walk(tree):
             if isinstance(n, ast.ClassDef):
@@ -188,7 +196,7 @@ def scan(repo):
                     kind = 'dataclass-frozen' if any('frozen=True' in d for d in deco) else 'dataclass-MUTABLE'
                 if kind:
                     frozen.append((rel, n.name, kind))
-    return iters, muts, frozen
+    return iters, muts, frozen, hidden
 
 def coq_str(s):
     return '"' + s.replace('"', '""') + '"'
@@ -196,11 +204,12 @@ def coq_str(s):
 def main():
     repo = sys.argv[1] if len(sys.argv) > 1 else '/repo'
     outdir = sys.argv[2] if len(sys.argv) > 2 else os.path.join(os.path.dirname(os.path.abspath(__file__)), '../../coq/Gen')
-    iters, muts, frozen = scan(repo)
+    iters, muts, frozen, hidden = scan(repo)
+    hidden = sorted(set(hidden))
     # line numbers are deliberately not part of a site: harmless edits elsewhere in the file must not move it
     iters = sorted(set(iters)); muts = sorted(set(muts)); frozen = sorted(set(frozen))
     os.makedirs(outdir, exist_ok=True)
-    json.dump({'iter_sites': iters, 'mut_sites': muts, 'record_types': frozen}, open(os.path.join(outdir, 'inventory.json'), 'w'), indent=1)
+    json.dump({'iter_sites': iters, 'mut_sites': muts, 'record_types': frozen, 'hidden_sites': hidden}, open(os.path.join(outdir, 'inventory.json'), 'w'), indent=1)
     L = ['(* GENERATED by tools/py2v/inventory.py from /repo working tree — do not edit *)', 'From Coq Require Import String List.', 'Import ListNotations.',
          'Local Open Scope string_scope.', '',
          'Definition iter_sites : list (string * string * string * string) := [']
@@ -209,6 +218,8 @@ def main():
     L.append(';\n'.join(f'  ({coq_str(a)}, {coq_str(b)}, {coq_str(c)}, {coq_str(d)}, {coq_str(e)})' for a, b, c, d, e in muts))
     L += ['].', '', 'Definition record_types : list (string * string * string) := [']
     L.append(';\n'.join(f'  ({coq_str(a)}, {coq_str(b)}, {coq_str(c)})' for a, b, c in frozen))
+    L += ['].', '', 'Definition hidden_sites : list (string * string * string) := [']
+    L.append(';\n'.join(f'  ({coq_str(a)}, {coq_str(b)}, {coq_str(c)})' for a, b, c in hidden))
     L += ['].', '']
     text = '\n'.join(L)
     path = os.path.join(outdir, 'Inventory.v')
